@@ -19,8 +19,7 @@ const Scale = 60
 
 // Pt is one input point of the model alphabet: time T (model seconds), field
 // x of kind K ("int", "float", "str", "bool", "none" = field missing) with value
-// S*Base + V (Base = the batch's magnitude class, S = 0 in the ordinary phases; Q
-// adds Q quarters to a float value), tags: the group tags unless NoG, h=H unless
+// S*Base + V (Base = the batch's magnitude class, S = 0 in the ordinary phases), tags: the group tags unless NoG, h=H unless
 // H == "-", r=R unless R is "" or "-", and a second field i (position, int) that
 // identifies the point.
 type Pt struct {
@@ -269,6 +268,9 @@ func tk(t interface{ UnixNano() int64 }) int {
 }
 
 func encTags(t models.Tags) rt.M {
+	if len(t) == 0 {
+		return rt.M{"none": "-"} // an empty JSON object has no TLA+ counterpart
+	}
 	out := rt.M{}
 	for k, v := range t {
 		out[k] = v
@@ -304,48 +306,58 @@ func EncOut(it rt.SinkItem, sqField string) rt.M {
 // window node) back into a model batch: the aggregation is then checked against
 // what the node under test was actually given, not against what we think the
 // window should contain.
-func DecodeInBatch(b edge.BufferedBatchMessage) (Batch, error) {
-	out := Batch{G: b.Tags()["g"], Tmax: tk(b.Time())}
+func DecodeInBatch(b edge.BufferedBatchMessage, base string) (Batch, error) {
+	out := Batch{G: b.Tags()["g"], Tmax: tk(b.Time()), Base: base}
 	for _, bp := range b.Points() {
-		p := Pt{T: tk(bp.Time()), H: bp.Tags()["h"], K: "none"}
-		if iv, ok := bp.Fields()["i"].(int64); ok {
-			p.I = int(iv)
-		}
-		switch x := bp.Fields()["x"].(type) {
-		case int64:
-			p.K, p.V = "int", int(x)
-		case float64:
-			if x != math.Trunc(x) {
-				return out, fmt.Errorf("non-integral float %v in window output", x)
-			}
-			p.K, p.V = "float", int(x)
-		case string:
-			p.K = "str"
-			fmt.Sscanf(x, "s%d", &p.V)
-		case bool:
-			p.K = "bool"
-			if x {
-				p.V = 1
-			}
+		p := decodePt(bp.Fields(), bp.Tags(), tk(bp.Time()), Bases[base])
+		if p.K == "fx" {
+			return out, fmt.Errorf("value %v of field x is outside the model alphabet", bp.Fields()["x"])
 		}
 		out.Pts = append(out.Pts, p)
 	}
 	return out, nil
 }
 
-// DecodeInPoint: the same for a stream point observed at sink 'in'.
-func DecodeInPoint(pm edge.PointMessage) (string, Pt) {
-	p := Pt{T: tk(pm.Time()), H: pm.Tags()["h"], K: "none"}
-	if iv, ok := pm.Fields()["i"].(int64); ok {
+// decodePt reads a point back into the model alphabet (kind "fx" = not representable).
+func decodePt(f models.Fields, tags models.Tags, t int, base int64) Pt {
+	p := Pt{T: t, H: "-", R: "-", K: "none"}
+	if h, ok := tags["h"]; ok {
+		p.H = h
+	}
+	if r, ok := tags["r"]; ok {
+		p.R = r
+	}
+	_, hasG := tags["g"]
+	p.NoG = !hasG
+	if iv, ok := f["i"].(int64); ok {
 		p.I = int(iv)
 	}
-	switch x := pm.Fields()["x"].(type) {
-	case int64:
-		p.K, p.V = "int", int(x)
-	case float64:
-		p.K, p.V = "float", int(x)
-		if x != math.Trunc(x) {
+	split := func(x int64) {
+		if base != 0 {
+			s := x / base
+			if r := x - s*base; 2*r > base {
+				s++
+			} else if 2*r < -base {
+				s--
+			}
+			p.S = int(s)
+			x -= s * base
+		}
+		if x > 1000000 || x < -1000000 {
 			p.K = "fx"
+		}
+		p.V = int(x)
+	}
+	switch x := f["x"].(type) {
+	case int64:
+		p.K = "int"
+		split(x)
+	case float64:
+		p.K = "float"
+		if x != math.Trunc(x) || math.Abs(x) > 1e15 {
+			p.K = "fx"
+		} else {
+			split(int64(x))
 		}
 	case string:
 		p.K = "str"
@@ -356,7 +368,12 @@ func DecodeInPoint(pm edge.PointMessage) (string, Pt) {
 			p.V = 1
 		}
 	}
-	return pm.Tags()["g"], p
+	return p
+}
+
+// DecodeInPoint: the same for a stream point observed at sink 'in'.
+func DecodeInPoint(pm edge.PointMessage) (string, Pt) {
+	return pm.Tags()["g"], decodePt(pm.Fields(), pm.Tags(), tk(pm.Time()), 0)
 }
 
 func errStrings(es []rt.ErrItem) []any {
